@@ -50,6 +50,24 @@ func sameResult(op wire.Op, a, b HRes) string {
 	if len(a.Hits) != len(b.Hits) || len(a.Miss) != len(b.Miss) {
 		return fmt.Sprintf("pool returned %d hits %d misses (%s), direct connection %d hits %d misses (%s)", len(a.Hits), len(a.Miss), fmtVals(a.Hits), len(b.Hits), len(b.Miss), fmtVals(b.Hits))
 	}
+	// which requests missed, not only how many; no request answered twice
+	ma, mb := map[int]int{}, map[int]int{}
+	for _, i := range a.Miss {
+		ma[i]++
+	}
+	for _, i := range b.Miss {
+		mb[i]++
+	}
+	for i, n := range ma {
+		if mb[i] != n {
+			return fmt.Sprintf("pool reported request #%d as a miss %d time(s), the direct connection %d time(s) (pool misses %v, direct %v)", i, n, mb[i], a.Miss, b.Miss)
+		}
+	}
+	for _, v := range a.Hits {
+		if ma[v.Idx] > 0 {
+			return fmt.Sprintf("pool answered request #%d with a hit and with a miss", v.Idx)
+		}
+	}
 	am := map[int]ObsVal{}
 	for _, v := range a.Hits {
 		if _, dup := am[v.Idx]; dup {
@@ -610,8 +628,10 @@ func relaxedCheck(caller int, call poolCall, wrote map[string]uint32) string {
 				return fmt.Sprintf("reply for request #%d carries key %q, the request was for %q", v.Idx, v.Key, wantKey)
 			}
 			if bytes.HasPrefix([]byte(wantKey), []byte("shared")) {
-				if !bytes.HasPrefix(v.Data, []byte("shared-value-")) {
-					return fmt.Sprintf("shared key %q returned %s", wantKey, short(v.Data))
+				// read-only keys: exactly their own value and flags (shared<i> -> shared-value-<i>, 70+i)
+				n := int(wantKey[len(wantKey)-1] - '0')
+				if want := fmt.Sprintf("shared-value-%d", n); string(v.Data) != want || v.Flags != uint32(70+n) {
+					return fmt.Sprintf("shared key %q returned %s flags %d, it holds %q flags %d", wantKey, short(v.Data), v.Flags, want, 70+n)
 				}
 				continue
 			}
